@@ -11,6 +11,7 @@ import (
 	"github.com/basecomplextech/baselibrary/async"
 	"github.com/basecomplextech/baselibrary/bin"
 	"github.com/basecomplextech/baselibrary/status"
+	"github.com/basecomplextech/spec/internal/verifpoint"
 	"github.com/basecomplextech/spec/proto/pmpx"
 )
 
@@ -266,6 +267,7 @@ func (ch *channel) ReceiveWait() <-chan struct{} {
 
 // Free closes the channel and releases its resources.
 func (ch *channel) Free() {
+	verifpoint.Point("ch.Free", verifpoint.Ptr(ch), 0, 0)
 	ok := ch.freed.CompareAndSwap(false, true)
 	if !ok {
 		panic("free called multiple times")
@@ -279,6 +281,7 @@ func (ch *channel) Free() {
 
 // receive is called by the connection to receive a message.
 func (ch *channel) receive(msg pmpx.Message) status.Status {
+	verifpoint.Point("ch.receive", verifpoint.Ptr(ch), int64(ch.refs.Load()), 0)
 	s := ch.acquire()
 	defer ch.release()
 
@@ -293,6 +296,7 @@ func (ch *channel) receive(msg pmpx.Message) status.Status {
 
 // free is called by the connection to free the channel.
 func (ch *channel) free() {
+	verifpoint.Point("ch.free", verifpoint.Ptr(ch), int64(ch.refs.Load()), 0)
 	s := ch.state.Load()
 	if s == nil {
 		panic("free of freed channel")
@@ -306,6 +310,7 @@ func (ch *channel) free() {
 
 // acquire increments the refcounter and returns the channel state, panics if freed.
 func (ch *channel) acquire() *channelState {
+	verifpoint.Point("ch.acquire", verifpoint.Ptr(ch), int64(ch.refs.Load()), 0)
 	refs := ch.refs.Add(1)
 	if refs == 1 {
 		panic("acquire of freed channel")
@@ -321,6 +326,7 @@ func (ch *channel) acquire() *channelState {
 // release decrements the internal refs counter.
 func (ch *channel) release() {
 	refs := ch.refs.Add(-1)
+	verifpoint.Point("ch.release", verifpoint.Ptr(ch), int64(refs), 0)
 	if refs > 0 {
 		return
 	}
